@@ -253,6 +253,14 @@ def make_numpy():
         return T.unique(x, *a, **k)
     m.unique = np_unique
     m.bincount = T.bincount
+
+    def take(x, indices, axis=None):
+        x = x if isinstance(x, Arr) else NDArray(_obj(x))
+        idx = indices if isinstance(indices, Arr) else NDArray(_obj(indices), dtype="int64")
+        if axis is None:
+            return x.reshape(-1)[idx]
+        return x[(slice(None),) * (axis % x.a.ndim) + (idx,)]
+    m.take = take
     m.flatnonzero = lambda x: (x if isinstance(x, Arr) else NDArray(_obj(x))).reshape(-1).nonzero()[0]
 
     class _AddUfunc:
